@@ -218,16 +218,10 @@ func (w ConsoleWriter) writeFields(evt map[string]interface{}, buf *bytes.Buffer
 	// Move the "error" field to the front
 	ei := sort.Search(len(fields), func(i int) bool { return fields[i] >= ErrorFieldName })
 	if ei < len(fields) && fields[ei] == ErrorFieldName {
-		fields[ei] = ""
-		fields = append([]string{ErrorFieldName}, fields...)
-		var xfields = make([]string, 0, len(fields))
-		for _, field := range fields {
-			if field == "" { // Skip empty fields
-				continue
-			}
-			xfields = append(xfields, field)
-		}
-		fields = xfields
+		// Shift the fields before it up by one instead of blanking the slot,
+		// so that a field whose name is empty is not mistaken for the hole.
+		copy(fields[1:ei+1], fields[:ei])
+		fields[0] = ErrorFieldName
 	}
 
 	for i, field := range fields {
